@@ -106,9 +106,9 @@ Qed.
 (* ------------------------------------------------------------------ *)
 Lemma shf_wf_admit cv una cw : forall sq sb nxt n sq' sb' nxt' n',
   Forall shf_segwf sq -> Forall shf_segwf sb ->
-  admit sq sb cv una nxt cw n = (sq', sb', nxt', n') -> Forall shf_segwf sq' /\ Forall shf_segwf sb'.
+  admit_segs sq sb cv una nxt cw n = (sq', sb', nxt', n') -> Forall shf_segwf sq' /\ Forall shf_segwf sb'.
 Proof.
-  induction sq as [|s t IH]; intros sb nxt n sq' sb' nxt' n' Hsq Hsb E; cbn [admit] in E.
+  induction sq as [|s t IH]; intros sb nxt n sq' sb' nxt' n' Hsq Hsb E; cbn [admit_segs] in E.
   - inversion E; subst. split; assumption.
   - destruct (itimediff nxt (u32 (una + cw)) >=? 0); [inversion E; subst; split; assumption|].
     inversion Hsq as [|x y Hs Ht]; subst x y.
